@@ -7,14 +7,36 @@ TOL = 1e-9
 
 # ---------------------------------------------------------------------------------- data and models
 
+EXTRA_MODELS = ('mlp', 'resnet', 'ft', 'trompt', 'tabnet')     # models that take a stype_encoder_dict for any stype
+TS_FMT = '%Y-%m-%d %H:%M:%S'
+
+
+def empty_rows(case):
+    """rows whose multicategorical cells are EMPTY lists (no item - not the missing marker) in every such column"""
+    n, pat = case['rows'], case.get('empty')
+    rows = {None: [], 'none': [], 'first': [0], 'middle': [n // 2], 'last': [n - 1], 'last2': [n - 2, n - 1],
+            'last3': [n - 3, n - 2, n - 1], 'first+last': [0, n - 1], 'all-but-one': [i for i in range(n) if i != n // 2],
+            'all': list(range(n)), 'random': [i for i in range(n) if (case['seed'] >> (i % 24)) & 1 and i != case['seed'] % n]}[pat]
+    return sorted({q for q in rows if 0 <= q < n})
+
+
+def feature_names(case):
+    return ([f'n{i}' for i in range(case['num'])] + [f'c{i}' for i in range(case['cat'])] +
+            [f'm{i}' for i in range(case.get('mc', 0))] + [f't{i}' for i in range(case.get('ts', 0))] +
+            [f'e{i}' for i in range(case.get('emb', 0))])
+
+
 def make_frame(case):
     """a small materialized dataset (>= 2 columns per used stype, optional missing cells), in float64; the scale
-    family makes it long (rows), wide (columns) or gives one categorical column many categories (`bigcat`)"""
+    family makes it long (rows), wide (columns) or gives one categorical column many categories (`bigcat`);
+    `mc` / `ts` / `emb` add multicategorical (with EMPTY cells in the rows `empty_rows`), timestamp and embedding
+    columns; `const` makes some columns constant / nearly constant over the first T rows (the rows the long training
+    runs on) while they vary in the later rows"""
     nngen.setup()
     import numpy as np
     import pandas as pd
     from torch_frame import TensorFrame, stype
-    from torch_frame.data import Dataset
+    from torch_frame.data import Dataset, MultiEmbeddingTensor
     r = np.random.RandomState(case['seed'] % (1 << 31))
     n = case['rows']
     cols, c2s = {}, {}
@@ -31,49 +53,129 @@ def make_frame(case):
         c2s[f'c{i}'] = stype.categorical
     cols['y'] = r.randn(n)
     c2s['y'] = stype.numerical
+    kw = {}
+    full = None
+    if case.get('mc'):
+        er = set(empty_rows(case))
+        full = min(q for q in range(n + 1) if q not in er) if len(er) < n else None
+        for i in range(case['mc']):
+            voc = [f'k{j}' for j in range(2 + (i + case['seed']) % 3)]
+            cells = []
+            for q in range(n):
+                if q in er:
+                    cells.append('')
+                elif q == full:
+                    cells.append(','.join(voc))                  # every token occurs
+                else:
+                    cells.append(','.join(r.permutation(voc)[:r.randint(1, len(voc) + 1)]))
+            cols[f'm{i}'] = np.array(cells, dtype=object)
+            c2s[f'm{i}'] = stype.multicategorical
+        kw['col_to_sep'] = ','
+    if case.get('ts'):
+        for i in range(case['ts']):
+            cols[f't{i}'] = np.array(['%04d-%02d-%02d %02d:%02d:%02d' % (r.randint(1995, 2026), r.randint(1, 13), r.randint(1, 29),
+                                                                          r.randint(0, 24), r.randint(0, 60), r.randint(0, 60))
+                                      for _ in range(n)], dtype=object)
+            c2s[f't{i}'] = stype.timestamp
+        kw['col_to_time_format'] = TS_FMT
+    for i in range(case.get('emb', 0)):
+        w = 1 + (i + case['seed']) % 3
+        ser = pd.Series([None] * n, dtype=object)
+        for q in range(n):
+            ser.iloc[q] = [float(x) for x in r.randn(w)]
+        cols[f'e{i}'] = ser
+        c2s[f'e{i}'] = stype.embedding
+    const = case.get('const')
+    if const:
+        T = const['T']
+        for name, kind in const['cols'].items():
+            if name.startswith('n'):
+                v = cols[name]
+                c = 0.0 if kind == 'zero' else float(v[0])
+                noise = {'const': 0.0, 'zero': 0.0, 'near': 1e-3, 'tiny': 1e-7}[kind]
+                v[:T] = c + noise * r.randn(T)
+                # (the later rows deviate from the training value by their own spread times `dev`)
+                v[T:] = c + const.get('dev', {}).get(name, 1.0) * (v[T:] - c)
+            else:
+                v = cols[name]
+                keep = list(v[:T])
+                v[:T] = v[0]
+                # (every category still occurs - in the later rows)
+                for q, x in enumerate(keep):
+                    if T + q < n:
+                        v[T + q] = x
     df = pd.DataFrame(cols)
     if case['missing']:
-        for name in list(cols)[:-1]:
+        for name in [c for c in cols if c != 'y']:
             if r.rand() < 0.6:
+                lo0 = const['T'] if const and name in const['cols'] else 3
+                if lo0 >= n:
+                    continue
+                miss = np.nan if name.startswith('n') else None
                 # (rows 0-2 keep one occurrence of every category, so no column degenerates to one value)
-                df.loc[int(r.randint(3, n)), name] = None if name.startswith('c') else np.nan
+                keep = full if name[0] == 'm' else None      # (the row that holds the whole token vocabulary stays)
+                q = int(r.randint(lo0, n))
+                if q != keep:
+                    df.at[q, name] = miss
                 if n > 16:                    # long frames: missing cells all over the column, not just one
-                    lo = min(case.get('bigcat', 3), n - 1) if name == 'c0' else 3
+                    lo = min(case.get('bigcat', 3), n - 1) if name == 'c0' else lo0
                     for q in r.randint(lo, n, max(1, n // 9)):
-                        df.loc[int(q), name] = None if name.startswith('c') else np.nan
-    df = df.astype({c: object for c in cols if c.startswith('c')})
-    ds = Dataset(df, c2s, target_col='y').materialize()
+                        if int(q) != keep:
+                            df.at[int(q), name] = miss
+    df = df.astype({c: object for c in cols if c[0] in 'cmt'})
+    ds = Dataset(df, c2s, target_col='y', **kw).materialize()
     tf = ds.tensor_frame
     import torch
     bd = case.get('block_dtype') or {}
     # family 3: float32 numbers (as the mapper emits them) under float64 parameters / int32 category indices
-    fd = {k: ((v if bd.get('num') == 'f32' else v.double()) if v.is_floating_point()
-              else (v.to(torch.int32) if bd.get('cat') == 'i32' else v.clone())) for k, v in tf.feat_dict.items()}
+    fd = {}
+    for k, v in tf.feat_dict.items():
+        if k == stype.numerical:
+            fd[k] = v if bd.get('num') == 'f32' else v.double()
+        elif k == stype.categorical:
+            fd[k] = v.to(torch.int32) if bd.get('cat') == 'i32' else v.clone()
+        elif k == stype.embedding:
+            fd[k] = MultiEmbeddingTensor(v.num_rows, v.num_cols, v.values.double(), v.offset)
+        else:
+            fd[k] = v.clone()
     return ds, TensorFrame(fd, tf.col_names_dict, tf.y.double())
 
 
 def encoder_dict(case, which=0):
     """family 6: encoder options off the default (None = the model's own default encoders).  Fresh encoder
-    objects on every call (an encoder object belongs to one model)."""
+    objects on every call (an encoder object belongs to one model).  Frames with multicategorical / timestamp /
+    embedding columns always need an explicit dict (option 'plain' = the usual encoder of every stype)."""
     opt = case.get('enc')
-    if not opt:
+    extras = [k_ for k_ in ('mc', 'ts', 'emb') if case.get(k_)]
+    if not opt and not extras:
         return None
+    opt = opt or 'plain'
     from torch_frame import NAStrategy, stype
     from torch_frame.nn import encoder as E
     k = case['model']
     num = {'na': lambda: E.LinearEncoder(na_strategy=NAStrategy.MEAN),
            'periodic': lambda: E.LinearPeriodicEncoder(n_bins=3, na_strategy=NAStrategy.ZEROS),
-           'extra-keys': lambda: E.LinearEncoder()}[opt]
+           'extra-keys': lambda: E.LinearEncoder(), 'plain': lambda: E.LinearEncoder()}[opt]
     if k == 'excel':
         num = lambda: E.ExcelFormerEncoder(case['channels'], na_strategy=NAStrategy.ZEROS if opt == 'na' else NAStrategy.MEAN)  # noqa
     if k == 'tabnet':
         num = lambda: E.StackEncoder(na_strategy=NAStrategy.MEAN if opt == 'na' else None)  # noqa
     cat = (lambda: E.EmbeddingEncoder(na_strategy=NAStrategy.MOST_FREQUENT)) if opt == 'na' else (lambda: E.EmbeddingEncoder())
     d = {stype.numerical: num()} if k == 'excel' else {stype.categorical: cat(), stype.numerical: num()}
+    more = {}
+    if case.get('mc') or opt == 'extra-keys':
+        more[stype.multicategorical] = E.MultiCategoricalEmbeddingEncoder(
+            mode=case.get('bag_mode', 'mean'), na_strategy=NAStrategy.ZEROS if opt == 'na' and case.get('mc') else None)
+    if case.get('ts') or opt == 'extra-keys':
+        more[stype.timestamp] = E.TimestampEncoder(
+            na_strategy=NAStrategy.MEDIAN_TIMESTAMP if opt == 'na' and case.get('ts') else None)
+    if case.get('emb') or opt == 'extra-keys':
+        more[stype.embedding] = E.LinearEmbeddingEncoder()
     if opt == 'extra-keys':
         # keys for stypes the dataset does not have (admissible pairings), listed first
-        d = {stype.timestamp: E.TimestampEncoder(), stype.embedding: E.LinearEmbeddingEncoder(),
-             stype.multicategorical: E.MultiCategoricalEmbeddingEncoder(), **d}
+        d = {**{k_: more[k_] for k_ in (stype.timestamp, stype.embedding, stype.multicategorical)}, **d}
+    else:
+        d.update(more)
     return d
 
 
@@ -85,7 +187,7 @@ def construct(case, ds, tf, drop=True):
     kw = dict(col_stats=ds.col_stats, col_names_dict=tf.col_names_dict)
     k, ch, out, L = case['model'], case['channels'], case['out'], case['layers']
     d = (case.get('drop') or {}) if drop else {kk: 0.0 for kk in (case.get('drop') or {})}
-    if case.get('enc') and k != 'tabt':
+    if (case.get('enc') or case.get('mc') or case.get('ts') or case.get('emb')) and k != 'tabt':
         if k == 'trompt':
             kw['stype_encoder_dicts'] = [encoder_dict(case, i) for i in range(L)]
         else:
@@ -115,16 +217,40 @@ def select(tf, idx):
     return tf[idx] if idx else tf[torch.tensor([], dtype=torch.long)]
 
 
+def filled(tf):
+    """the frame with every missing cell filled by a legal value (training input only)"""
+    import torch
+    from torch_frame import TensorFrame, stype
+    from torch_frame.data import MultiEmbeddingTensor
+    fd = {}
+    for k, v in tf.feat_dict.items():
+        if k == stype.timestamp:
+            v = v.clone()
+            for j in range(v.shape[1]):
+                bad = (v[:, j] < 0).any(dim=-1)
+                if bool(bad.any()) and not bool(bad.all()):
+                    v[bad, j] = v[(~bad).nonzero()[0, 0], j].clone()
+            fd[k] = v
+        elif k == stype.embedding:
+            fd[k] = MultiEmbeddingTensor(v.num_rows, v.num_cols, torch.nan_to_num(v.values, nan=0.0), v.offset)
+        elif k == stype.multicategorical:
+            fd[k] = v                     # (the missing marker -1 addresses the padding row: no gradient, no NaN)
+        else:
+            fd[k] = torch.nan_to_num(v, nan=0.0) if v.is_floating_point() else v.clamp(min=0)
+    return TensorFrame(fd, tf.col_names_dict, tf.y)
+
+
 def train_steps(case, m, tf, steps, gseed):
-    """a few optimizer steps so that the BatchNorm running statistics are those of training, not the initial ones"""
+    """optimizer steps so that the BatchNorm running statistics are those of training, not the initial ones; the long
+    training family (`const`) runs a few hundred steps on the first T rows, where some columns are constant"""
     torch = nngen.setup()
     # (training on the missing cells themselves poisons the default encoders' weights with NaN - finding
     #  'encoder/nan-weights-after-training-on-missing', probed separately in extra_checks - so the training
     #  steps, and only they, see the missing cells filled)
-    from torch_frame import TensorFrame
-    tf = TensorFrame({k: (torch.nan_to_num(v, nan=0.0) if v.is_floating_point() else v.clamp(min=0))
-                      for k, v in tf.feat_dict.items()}, tf.col_names_dict, tf.y)
-    if len(tf) > 64:
+    tf = filled(tf)
+    if case.get('const'):
+        tf = tf[:case['const']['T']]
+    elif len(tf) > 64:
         tf = tf[:64]                       # (the running statistics of 64 rows are as non-trivial as those of 4 000)
     m.train()
     opt = torch.optim.SGD(m.parameters(), lr=0.02)
@@ -207,12 +333,19 @@ def encoders_of(case, m):
     return out
 
 
-def run_model(case, m, tf):
-    """(output, [encoder outputs]) of one forward pass"""
+def run_model(case, m, tf, logits=None):
+    """(output, [encoder outputs]) of one forward pass; `logits` (a list) collects the largest |argument| handed to
+    the softmax of TabNet's attentive transformers"""
     import torch
     seen = []
     hooks = [e.register_forward_hook(lambda mod, a, o: seen.append((o[0] if isinstance(o, tuple) else o).detach().clone()))
              for e in encoders_of(case, m)]
+    if logits is not None and case['model'] == 'tabnet':
+        def grab(mod, a, o):
+            x, prior = a
+            if len(x):
+                logits.append(float((prior * mod.bn(mod.lin(x))).abs().max()))
+        hooks += [a.register_forward_hook(grab) for a in m.attn_transformers]
     try:
         with torch.no_grad():
             out = m(tf)
@@ -261,7 +394,7 @@ def export(case, m):
                 'decNorm': nngen.ln(m.decoder[0]), 'decLin': nngen.lin(m.decoder[2])}
     if k == 'ft':
         return {'convs': nngen.ftconvs(m.backbone), 'decNorm': nngen.ln(m.decoder[0]), 'decLin': nngen.lin(m.decoder[2]),
-                'channels': case['channels'], 'numCols': case['num'] + case['cat']}
+                'channels': case['channels'], 'numCols': len(feature_names(case))}
     if k == 'tabt':
         has_cat, has_num = hasattr(m, 'cat_encoder'), hasattr(m, 'num_encoder')
         d = m.decoder
@@ -294,20 +427,66 @@ def perturbed(tf, ds, col, rows, seed, scale=1.0):
     """copy of `tf` in which column `col` (index into columns_of) is changed, generically, on `rows`"""
     import torch
     from torch_frame import TensorFrame, stype
+    from torch_frame.data import MultiEmbeddingTensor, MultiNestedTensor
     from torch_frame.data.stats import StatType
     st, j = columns_of(tf)[col]
     fd = {k: v.clone() for k, v in tf.feat_dict.items()}
     rows_t = torch.tensor(rows, dtype=torch.long)
+    name = tf.col_names_dict[st][j]
     if st == stype.numerical:
         noise = nngen.randn((len(rows),), seed, scale=scale)
         old = torch.nan_to_num(fd[st][rows_t, j], nan=0.0)
         fd[st][rows_t, j] = (old + noise + 0.5).to(fd[st].dtype)
-    else:
-        name = tf.col_names_dict[st][j]
+    elif st == stype.categorical:
         k = len(ds.col_stats[name][StatType.COUNT][0])
         old = fd[st][rows_t, j]
         fd[st][rows_t, j] = torch.where(old < 0, torch.zeros_like(old), (old + 1 + seed % max(k - 1, 1)) % k)
+    elif st == stype.multicategorical:
+        # another list of fitted tokens in the cell: an empty / missing cell gets one, others lose or gain one
+        k = max(len(ds.col_stats[name][StatType.MULTI_COUNT][0]), 1)
+        feat = tf.feat_dict[st]
+        vals, off = feat.values.tolist(), feat.offset.tolist()
+        R, C = feat.num_rows, feat.num_cols
+        cells = [[vals[off[r * C + c]:off[r * C + c + 1]] for c in range(C)] for r in range(R)]
+        for q, r in enumerate(rows):
+            cell = [v for v in cells[r][j] if v >= 0]
+            if not cell:
+                cell = [(seed + q) % k]
+            elif len(cell) < k and (seed + q) % 2:
+                cell = cell + [min(v for v in range(k) if v not in cell)]
+            else:
+                cell = cell[:-1]
+            cells[r][j] = cell
+        fd[st] = MultiNestedTensor.from_tensor_mat([[torch.tensor(c, dtype=torch.long) for c in row] for row in cells])
+    elif st == stype.timestamp:
+        f = fd[st]
+        ok = (~(f[:, j] < 0).any(dim=-1)).nonzero()
+        for q, r in enumerate(rows):
+            if bool((f[r, j] < 0).any()):
+                if len(ok) == 0:
+                    continue
+                f[r, j] = f[ok[0, 0], j].clone()
+            f[r, j, 4] = (f[r, j, 4] + 1 + (seed + q) % 11) % 24          # hour
+            f[r, j, 5] = (f[r, j, 5] + 7 + (seed + q) % 13) % 60          # minute
+            f[r, j, 1] = (f[r, j, 1] + 1 + (seed + q) % 5) % 12           # month
+    else:
+        feat = tf.feat_dict[st]
+        vals, off = feat.values.clone(), feat.offset.tolist()
+        w = off[j + 1] - off[j]
+        noise = nngen.randn((len(rows), w), seed, scale=scale)
+        vals[rows_t, off[j]:off[j + 1]] = torch.nan_to_num(vals[rows_t, off[j]:off[j + 1]], nan=0.0) + noise + 0.5
+        fd[st] = MultiEmbeddingTensor(feat.num_rows, feat.num_cols, vals, feat.offset)
     return TensorFrame(fd, tf.col_names_dict, tf.y)
+
+
+def feat_equal(a, b):
+    """two feature blocks (dense / ragged / embedding) hold the same values (NaN = NaN)"""
+    import torch
+    if isinstance(a, torch.Tensor):
+        return isinstance(b, torch.Tensor) and a.dtype == b.dtype and a.shape == b.shape and \
+            torch.equal(torch.nan_to_num(a.double(), nan=-12345.678), torch.nan_to_num(b.double(), nan=-12345.678))
+    return type(a) is type(b) and a.num_rows == b.num_rows and a.num_cols == b.num_cols and \
+        torch.equal(a.offset, b.offset) and feat_equal(a.values, b.values)
 
 
 # ---------------------------------------------------------------------------------- known finding probe
@@ -386,7 +565,20 @@ class C14(core.Check):
             'scored alone; a freshly constructed model with the same state_dict predicts exactly the same (no state outside '
             'the state_dict); the same model with all dropout rates 0 predicts exactly the same; the first result is '
             're-computed after all other calls. Cases whose encoder output exceeds 400 000 numbers or whose state_dict exceeds '
-            '300 000 parameters (TabTransformer with > 100 columns) are judged by these oracles only (oracle_only_cases)')
+            '300 000 parameters (TabTransformer with > 100 columns) are judged by these oracles only (oracle_only_cases). '
+            'Third round (labels cfg:stype:* / ragged:* / compose:*-empty* / hist:long-training:* / values:train-column:*): 30-40% '
+            'of the MLP / ResNet / FTTransformer / Trompt / TabNet cases add 0-2 multicategorical (bag mode mean / sum / max), '
+            'timestamp and embedding columns with an explicit stype_encoder_dict (NA strategies with option na); the '
+            'multicategorical cells of chosen rows (first, middle, last, last two / three, first and last, all but one, a random '
+            'subset) are EMPTY lists - not missing - and half of those cases score a batch in which the rows with empty cells '
+            'come last / first / in the middle / alone; the perturbation oracles change cells of every stype. Long training: '
+            '12% of the TabNet, 5-6% of the MLP / ResNet / TabTransformer and 1.5% of the other cases run 110-300 (a quarter: '
+            '20-100) SGD steps on the first 4-8 rows, in which a strict subset of the columns is constant (also: always 0, '
+            'noise 1e-3, noise 1e-7; categorical: one category), and are then scored on >= 2 rows of the whole frame, where '
+            'those columns deviate from the training value by 1 / 0.05 / 0.002 of their spread (running variances collapsed '
+            'below eps). A returned prediction is overwritten in place and the batch scored again; the TensorFrame is compared '
+            'with a snapshot taken right after materialization. The request for the Lean model is built when the case is run '
+            '(the trained model is not rebuilt).')
     partial_notes = (
         '"every column can influence the prediction" is an existence claim about generic parameters: the structural '
         'half is encoder_drops_no_column, the numeric half is checked on the real models (generic perturbation of '
@@ -398,6 +590,15 @@ class C14(core.Check):
         '"can influence" is judged over parameter draws: if a column has no influence under the drawn (trained) state, the '
         'same configuration is re-drawn 6 times (alternately untrained / trained) at perturbation scales 1, 4, 16; the '
         'alarm needs all of them to ignore the column (evidence: columns_ignored_by_one_parameter_state)',
+        'the Lean softmax is the textbook exp(x_i) / sum_j exp(x_j) without the shift by the maximum; on Float it overflows '
+        'for arguments beyond ~709, which a collapsed running variance (factor 316 per BatchNorm) produces in TabNet\'s '
+        'attentive transformers after long training on constant columns: cases whose largest |softmax argument| (read off the '
+        'real model by a forward hook) exceeds 600 are judged by the direct oracles only (label '
+        'oracle-only:softmax-argument>600)',
+        'a multicategorical column without any fitted token (all cells empty) is encoded as zeros whatever the cell holds and '
+        'cannot influence a prediction: the zoo datasets keep one row with the whole token vocabulary (batches made only of '
+        'empty cells are generated); the long training keeps at least one column varying, so hidden BatchNorm channels do '
+        'not collapse one after the other (316^k would leave the range where float64 runs can be compared at 1e-9)',
     )
     assumptions = (
         'PyTorch primitives (Linear, LayerNorm, BatchNorm1d eval, GroupNorm, GLU, SELU, PReLU, softmax, '
@@ -411,6 +612,7 @@ class C14(core.Check):
     SCALE_SHARE = {0: 0.09, 1: 0.08, 2: 0.04}
     MODEL_FLOATS = 400_000          # encoder-output numbers above which a case is judged by the oracle only
     MODEL_PARAMS = 300_000          # exported parameters above which a case is judged by the oracle only
+    SOFTMAX_ARG = 600.0             # |softmax argument| above which the unshifted Float softmax of the model overflows
 
     def generate(self, rng, n, tier):
         big_left = 1 if tier == 'quick' else 12
@@ -453,17 +655,88 @@ class C14(core.Check):
                     case['dependent'] = 1
             if rng.random() < self.SCALE_SHARE.get(self.level, 0.05):
                 self.gen_scale(rng, case)
+            if k in EXTRA_MODELS and case.get('scale') in (None, 'batch', 'channels', 'layers') and \
+                    rng.random() < (0.4 if self.level == 0 else 0.3):
+                self.gen_extras(rng, case)
+            if 'scale' not in case and rng.random() < self.LONG_P[k] * self.LONG_LEVEL.get(self.level, 0.6):
+                self.gen_long(rng, case)
             rows = case['rows']
+            if case.get('mc') and 'idx' not in case and rng.random() < 0.5:
+                case['idx_kind'], case['idx'] = self.gen_empty_idx(rng, case)
             if 'idx' not in case:
                 ikind, idx = nngen.gen_idx(rng, rows)
                 if k == 'tabnet' and big_left > 0 and 'scale' not in case:
                     big_left -= 1
                     ikind, idx = 'big520', [rng.randrange(rows) for _ in range(520)]
                 case['idx_kind'], case['idx'] = ikind, idx
+            if case.get('const') and len(set(case['idx'])) < 2:
+                # (the rows scored after a long training: at least two different ones, so that the column varies)
+                idx = list(range(rows))
+                rng.shuffle(idx)
+                case['idx_kind'], case['idx'] = 'perm', idx
             case['row'] = rng.randrange(rows)
-            case['col'] = rng.randrange(case['num'] + case['cat'])
+            case['col'] = rng.randrange(len(feature_names(case)))
             self.gen_config(rng, case)
             yield case
+
+    # share of long-training cases per model: the models with running statistics (BatchNorm / GhostBatchNorm) most often
+    LONG_P = {'tabnet': 0.12, 'mlp': 0.06, 'resnet': 0.06, 'tabt': 0.05, 'ft': 0.015, 'trompt': 0.015, 'excel': 0.015}
+    LONG_LEVEL = {0: 1.0, 1: 0.8, 2: 0.6}
+
+    def gen_extras(self, rng, case):
+        """multicategorical (with EMPTY cells in the first / middle / last rows or everywhere), timestamp and embedding
+        columns next to the numerical / categorical ones; they need an explicit stype_encoder_dict"""
+        case['mc'] = rng.choice([0, 1, 1, 2])
+        case['ts'] = rng.choice([0, 0, 1, 2])
+        case['emb'] = rng.choice([0, 0, 1, 2])
+        if not (case['mc'] or case['ts'] or case['emb']):
+            case['mc'] = 1
+        if case['mc']:
+            # (all rows empty = no fitted token at all: such a column cannot influence anything; batches made of empty
+            #  cells only are drawn by gen_empty_idx)
+            case['empty'] = rng.choice(['none', 'random', 'random', 'first', 'middle', 'last', 'last', 'last2', 'last3',
+                                        'first+last', 'all-but-one'])
+            case['bag_mode'] = rng.choice(['mean', 'sum', 'max'])
+        if case['model'] in ('ft', 'trompt') and rng.random() < 0.5:
+            case['num'], case['cat'] = rng.randint(1, 2), rng.randint(1, 2)      # (attention is quadratic in the columns)
+
+    @staticmethod
+    def gen_empty_idx(rng, case):
+        """batch compositions by the position of the rows whose ragged cells are empty: last / first / middle / alone"""
+        n = case['rows']
+        E = empty_rows(case)
+        N = [q for q in range(n) if q not in E]
+        if not E:
+            return nngen.gen_idx(rng, n)
+        pick = rng.sample(N, rng.randint(1, len(N))) if N else []
+        es = [rng.choice(E) for _ in range(rng.choice([1, 1, 2, 3]))]
+        h = len(pick) // 2
+        kind = rng.choice(['ends-with-empty', 'ends-with-empty', 'starts-with-empty', 'empty-in-the-middle', 'only-empty'])
+        idx = {'ends-with-empty': pick + es, 'starts-with-empty': es + pick, 'empty-in-the-middle': pick[:h] + es + pick[h:],
+               'only-empty': es}[kind]
+        return kind, idx
+
+    def gen_long(self, rng, case):
+        """long training (a few hundred cheap optimisation steps) on rows in which some columns are constant, nearly
+        constant or have a vanishing variance; the later rows - scored in evaluation mode - vary in those columns"""
+        k = case['model']
+        T = rng.randint(4, 8)
+        case['rows'] = T + rng.randint(4, 8)
+        names = [f'n{i}' for i in range(case['num'])] + [f'c{i}' for i in range(case['cat'])]
+        chosen = rng.sample(names, rng.randint(1, max(1, len(names) - 1)))
+        kinds = {}
+        for nm in chosen:
+            kinds[nm] = rng.choice(['const', 'const', 'zero', 'near', 'tiny']) if nm.startswith('n') else 'const'
+        case['const'] = {'T': T, 'cols': kinds,
+                         'dev': {nm: rng.choice([1.0, 0.05, 0.002]) for nm in chosen if nm.startswith('n')}}
+        cheap = k in ('mlp', 'resnet', 'tabnet', 'tabt')
+        if rng.random() < 0.25:
+            case['steps'] = rng.choice([20, 60, 100])
+        else:
+            case['steps'] = rng.choice([110, 120, 150, 200, 300] if cheap else [110, 120, 150])
+        if k in ('mlp', 'resnet') and rng.random() < 0.7:
+            case['norm'] = 'batch_norm'
+        case['layers'] = min(case['layers'], 2)
 
     def gen_scale(self, rng, case):
         """family 1: one size far above the small default - batch (> 512, > 2 048 rows), frame length, number of
@@ -574,16 +847,22 @@ class C14(core.Check):
     def _run(self, case):
         torch = nngen.setup()
         ds, tf = make_frame(case)
+        small = len(tf) * len(feature_names(case)) <= 50_000
+        st = {'ds': ds, 'tf': tf}
+        if small:
+            st['tf_snap'] = ({k_: v.clone() for k_, v in tf.feat_dict.items()},
+                             {k_: list(v) for k_, v in tf.col_names_dict.items()})
         m = make_model(case, ds, tf)
-        st = {'ds': ds, 'tf': tf, 'm': m}
+        st['m'] = m
         try:
             batch = select(tf, case['idx'])
             snap = {k_: v.clone() for k_, v in batch.feat_dict.items()}
-            out, enc = run_model(case, m, batch)
+            logits = []
+            out, enc = run_model(case, m, batch, logits)
             st['out'], st['enc'] = out, enc
+            st['softmax_arg'] = max([v for v in logits if v == v] + [0.0])
             st['out_snap'] = out.clone()
-            st['input_modified'] = any(not torch.equal(torch.nan_to_num(v.double()), torch.nan_to_num(snap[k_].double()))
-                                       for k_, v in batch.feat_dict.items())
+            st['input_modified'] = any(not feat_equal(v, snap[k_]) for k_, v in batch.feat_dict.items())
         except Exception as e:  # noqa
             st['out'], st['exc'] = None, f'{type(e).__name__}: {e}'
         self._stash = (core.stable_hash(case), st)
@@ -599,6 +878,12 @@ class C14(core.Check):
         if 'probe' in case:
             return run_probe(case)
         st = self._run(case)
+        # the engine asks for the model requests only after ALL cases were run: build them now, while the trained
+        # model exists (re-running the case - and its training - a second time doubled the run time)
+        key = core.stable_hash(case)
+        cache = self.__dict__.setdefault('_reqs', {})
+        skip = st['out'] is not None and self.oracle_only(case, st)
+        cache[key] = ([] if (st['out'] is None or skip) else self.build_requests(case, st), skip)
         if st['out'] is None:
             return 'raises'
         return st['out'].tolist()
@@ -611,7 +896,10 @@ class C14(core.Check):
         attn = len(case['idx']) * case['num'] ** 2 if case['model'] == 'excel' else 0
         # (TabTransformer's decoder is quadratic in the number of columns: 2 M parameters at 257 columns)
         params = sum(p.numel() for p in st['m'].parameters()) if 'm' in st else 0
-        return n > self.MODEL_FLOATS or attn > 3_000_000 or params > self.MODEL_PARAMS
+        # the Lean model's softmax is the textbook exp(x_i) / sum_j exp(x_j) (no shift by the maximum): on Float it
+        # overflows for arguments beyond ~709, which a collapsed running variance (x 316) produces
+        return (n > self.MODEL_FLOATS or attn > 3_000_000 or params > self.MODEL_PARAMS
+                or st.get('softmax_arg', 0.0) > self.SOFTMAX_ARG)
 
     # core.Check.replay prints the model outcome with json.dumps, which cannot render core.SKIP_MODEL: during a replay
     # an oracle-only case reports a printable marker instead
@@ -627,9 +915,16 @@ class C14(core.Check):
     def model_requests(self, case):
         if 'probe' in case:
             return []
+        hit = self.__dict__.get('_reqs', {}).get(core.stable_hash(case))
+        if hit is not None:
+            return hit[0]
         st = self._state(case)
         if st['out'] is None or self.oracle_only(case, st):
             return []
+        return self.build_requests(case, st)
+
+    @staticmethod
+    def build_requests(case, st):
         k = case['model']
         req = {'cmd': k, 'p': export(case, st['m'])}
         enc = [nngen.enc(e) for e in st['enc']]
@@ -648,6 +943,9 @@ class C14(core.Check):
         if 'probe' in case:
             return 'probe-not-modelled'
         if not replies:
+            hit = self.__dict__.get('_reqs', {}).get(core.stable_hash(case))
+            if hit is not None:
+                return self.skip_model() if hit[1] else 'raises'
             st = self._state(case)
             if st['out'] is not None and self.oracle_only(case, st):
                 return self.skip_model()
@@ -695,6 +993,12 @@ class C14(core.Check):
             if not torch.equal(again, out):
                 return V('non-deterministic', 'two evaluation-mode calls on the same batch agree exactly',
                          f'max deviation {nngen.max_dev(again, out):.3e}')
+            # the returned prediction belongs to the caller: overwriting it in place changes no later call
+            again.mul_(0.0).add_(float('nan') if case['seed'] % 2 else 7.5)
+            third = m(tf[idx])
+            if not torch.equal(third, st['out_snap']) or not torch.equal(out, st['out_snap']):
+                return V('returned-value-aliases-state', 'after the caller overwrote a returned prediction in place the same '
+                         'batch is predicted as before', f'max deviation {nngen.max_dev(third, st["out_snap"]):.3e}')
             full = m(tf)
         if not bool(torch.isfinite(full).all()):
             return V('non-finite prediction')
@@ -753,6 +1057,12 @@ class C14(core.Check):
             if not torch.equal(m(tf[idx]), st['out_snap']) or not torch.equal(out, st['out_snap']):
                 return V('non-deterministic', 'the prediction of the batch is the same after the other calls of this check',
                          'changed')
+        if 'tf_snap' in st:
+            feats, names = st['tf_snap']
+            if {k_: list(v) for k_, v in tf.col_names_dict.items()} != names or \
+                    any(not feat_equal(v, feats[k_]) for k_, v in tf.feat_dict.items()):
+                return V('input-modified', 'the TensorFrame is what it was before training / scoring (snapshot taken right '
+                         'after materialization)', 'changed')
         return None
 
     REDRAWS = 6
@@ -830,6 +1140,28 @@ class C14(core.Check):
             labs.append('cfg:mixup-configured')
         if case.get('enc'):
             labs.append(f"cfg:encoders:{case['enc']}")
+        for k_, lab in (('mc', 'multicategorical'), ('ts', 'timestamp'), ('emb', 'embedding')):
+            if case.get(k_):
+                labs.append(f"cfg:stype:{lab}:{case['model']}")
+        if case.get('mc'):
+            labs.append(f"ragged:empty-cells:{case['empty']}")
+            labs.append(f"cfg:bag-mode:{case['bag_mode']}")
+            E = set(empty_rows(case))
+            if case['idx'] and case['idx'][-1] in E and any(q not in E for q in case['idx']):
+                labs.append('ragged:batch-ends-with-empty-cells')
+            if case['idx'] and case['idx'][0] in E:
+                labs.append('ragged:batch-starts-with-empty-cells')
+            if (case['rows'] - 1) in E:
+                labs.append('ragged:frame-ends-with-empty-cells')
+        if case.get('const'):
+            labs.append(f"hist:long-training:{case['model']}:{'110+' if case['steps'] >= 110 else '<110'}-steps")
+            for nm, kind in case['const']['cols'].items():
+                labs.append(f"values:train-column:{'numerical' if nm.startswith('n') else 'categorical'}:{kind}")
+            for nm, d in case['const']['dev'].items():
+                labs.append(f'values:eval-deviation-in-constant-column:x{d}')
+            T = case['const']['T']
+            if any(q >= T for q in case['idx']) and len(case['idx']) >= 2:
+                labs.append('hist:long-training:eval-batch-varies-in-constant-columns')
         for k_, v in (case.get('block_dtype') or {}).items():
             if case[k_]:
                 labs.append(f'dtype:{k_}:{v}')
@@ -839,9 +1171,12 @@ class C14(core.Check):
             labs.append(f'hist:after-training:{h}')
         if case.get('pre') and case['steps'] and 'batch' in case['pre']:
             labs.append('hist:eval(batch)->train-steps->eval(batch)')
+        hit = self.__dict__.get('_reqs', {}).get(core.stable_hash(case))
         st = self._state(case)
-        if st.get('out') is not None and self.oracle_only(case, st):
+        if hit[1] if hit is not None else (st.get('out') is not None and self.oracle_only(case, st)):
             labs.append('oracle-only')
+            if st.get('softmax_arg', 0.0) > self.SOFTMAX_ARG:
+                labs.append('oracle-only:softmax-argument>600')
         return labs
 
 
